@@ -96,8 +96,8 @@ def build_driver():
     stamp = os.path.join(d, "stamp")
     if os.path.exists(stamp) and open(stamp).read() == key and os.path.exists(os.path.join(d, "driver")):
         return
-    ok, out = coq_make(["theories/Model/Monitors.vo"] if os.path.exists(os.path.join(COQ, "theories/Model/Monitors.v"))
-                       else ["theories/Model/Worker.vo"])
+    targets = sorted("theories/Model/" + f[:-2] + ".vo" for f in os.listdir(os.path.join(COQ, "theories", "Model")) if f.endswith(".v"))
+    ok, out = coq_make(targets)
     if not ok:
         raise MachineryError("model does not compile:\n" + out[-3000:])
     sh(["coqc", "-Q", os.path.join(COQ, "theories"), "Tftp", os.path.join(COQ, "theories", "Extract", "Extract.v")],
